@@ -697,6 +697,10 @@ type VerifHook interface {
 	Lock(m unsafe.Pointer, name string, try func() bool)
 	// Unlocked is called after the real unlock.
 	Unlocked(m unsafe.Pointer)
+	// RLock / RUnlocked are the read side of a reader/writer lock: readers
+	// exclude writers, not each other.
+	RLock(m unsafe.Pointer, name string, try func() bool)
+	RUnlocked(m unsafe.Pointer)
 	// Access is called before a statement that reads / writes a watched field.
 	Access(id int, addr func() unsafe.Pointer, write bool, site string)
 	// MapOrder decides the iteration order of a map with n > 1 keys: the sorted
@@ -745,8 +749,8 @@ func (m *VerifMutex) Unlock() {
 	}
 }
 
-// VerifRWMutex replaces sync.RWMutex; readers are treated as writers by the
-// scheduler (exclusive), which only removes interleavings, never adds any.
+// VerifRWMutex replaces sync.RWMutex with the same semantics: any number of
+// readers, or one writer.
 type VerifRWMutex struct{ mu sync.RWMutex }
 
 func (m *VerifRWMutex) Lock() {
@@ -766,20 +770,21 @@ func (m *VerifRWMutex) Unlock() {
 
 func (m *VerifRWMutex) RLock() {
 	if h := VerifSimHook; h != nil {
-		h.Lock(unsafe.Pointer(m), "", m.mu.TryLock)
+		h.RLock(unsafe.Pointer(m), "", m.mu.TryRLock)
 		return
 	}
 	m.mu.RLock()
 }
 
 func (m *VerifRWMutex) RUnlock() {
-	if h := VerifSimHook; h != nil {
-		m.mu.Unlock()
-		h.Unlocked(unsafe.Pointer(m))
-		return
-	}
 	m.mu.RUnlock()
+	if h := VerifSimHook; h != nil {
+		h.RUnlocked(unsafe.Pointer(m))
+	}
 }
+
+func (m *VerifRWMutex) TryLock() bool  { return m.mu.TryLock() }
+func (m *VerifRWMutex) TryRLock() bool { return m.mu.TryRLock() }
 
 // verifMapKeys replaces Go's randomised map iteration order by an order the
 // simulator decides (any order is permitted by the language).
